@@ -47,6 +47,7 @@ pub fn profiles() -> Vec<(&'static str, GenCfg)> {
     deep.nested_depth = 3;
     deep.run_len = (0, 3);
     deep.flow_knots = (3, 6);
+    deep.allow_runout = true;
     vec![("weave", weave), ("functions", fns), ("tunnels", tun), ("threads", thr), ("all", all), ("deep", deep)]
 }
 
@@ -106,6 +107,8 @@ fn seg_json(s: &Segment) -> Value {
 }
 
 pub struct Verdict {
+    /// how the reference interpreter says the path ends
+    pub ending: String,
     pub aspect: Option<String>,
     pub detail: Value,
     pub unsupported: Option<String>,
@@ -117,9 +120,13 @@ pub fn compare_path(p: &Program, ir: &Rc<crate::refint::ir::Ir>, run: &PathRun, 
     let mut ri = Refint::new(p, ir.clone(), 200_000);
     let ev = engine_view(run);
     let mut expected: Vec<Segment> = Vec::new();
-    let mut verdict = Verdict { aspect: None, detail: Value::Null, unsupported: None, seen: Default::default() };
+    let mut verdict = Verdict { ending: String::new(), aspect: None, detail: Value::Null, unsupported: None, seen: Default::default() };
     for (si, (elines, echoices, eerrors, ectags)) in ev.segments.iter().enumerate() {
         let seg = ri.segment();
+        verdict.ending = match &seg.status {
+            Status::Fault(_) => "Fault".to_string(),
+            other => format!("{other:?}"),
+        };
         expected.push(seg.clone());
         match &seg.status {
             Status::Unsupported(w) => {
@@ -279,6 +286,7 @@ pub fn check_program(rep: &mut Report, name: &str, p: &Program, count_all: bool,
         let nsegs = run.choices.len() + 1;
         rep.case(if nsegs > 1 || run.recs.len() > 2 { Some(fnv(&format!("{name}|{:?}", run.choices))) } else { None });
         rep.count_n("segments-compared", nsegs as u64);
+        rep.count(&format!("path-ends:{}", v.ending));
         rep.count_n("lines-compared", run.recs.iter().filter(|r| r.res.is_ok() && !r.op.starts_with("Choose")).count() as u64);
         rep.count_n("visit-counts-compared", names.len() as u64);
         for (k, n) in v.seen.iter() {
